@@ -8,7 +8,7 @@ from common import *
 from regexlib import gen_tables
 
 ATTR = {"e": "C20", "b": "C20", "q": "C02", "wq": "C02", "x": "C02", "xa": "C02", "w": "C03",
-        "wp": "C02", "a": "C06", "d": "C06", "u": "C04", "redo": "C04", "se": "C02", "line": "C02", "top": "C06"}
+        "wp": "C02", "n": "C02", "a": "C06", "d": "C06", "u": "C04", "redo": "C04", "se": "C02", "line": "C02", "top": "C06"}
 
 
 def fnv(lines):
@@ -28,7 +28,7 @@ def tokens(lb):
 
 
 class Session:
-    def __init__(self, ctx, extra_env=None, preload=None):
+    def __init__(self, ctx, extra_env=None, preload=None, args=()):
         self.work = tempfile.mkdtemp(prefix="buf-", dir=ctx.scratch)
         self.trace = os.path.join(self.work, "..", os.path.basename(self.work) + ".trace")
         env = {"PATH": os.environ.get("PATH", "/usr/bin:/bin"), "HOME": self.work, "TERM": "xterm",
@@ -37,7 +37,7 @@ class Session:
         env.update(extra_env or {})
         if preload:
             env["LD_PRELOAD"] = preload
-        self.p = subprocess.Popen([os.path.join(ctx.build(), "vi"), "-s", "-e"], stdin=subprocess.PIPE,
+        self.p = subprocess.Popen([os.path.join(ctx.build(), "vi"), "-s", "-e"] + list(args), stdin=subprocess.PIPE,
                                   stdout=subprocess.DEVNULL, stderr=subprocess.PIPE, env=env, cwd=self.work)
         self.off = 0
         self.pending = []
@@ -176,7 +176,7 @@ def run_bufscript(ctx, script, shim=None):
 
 
 def _run_bufscript(ctx, script, shim=None):
-    s = Session(ctx, preload=shim)
+    s = Session(ctx, preload=shim, args=script.get("args", ()))
     res = {"seed": script["seed"], "status": "ok", "checked": 0, "history": []}
     try:
         exited = False
@@ -266,14 +266,18 @@ def bufs_check(ctx, own, nscripts, nsteps, mc_consts, rule, assumptions):
                 st["own_cmds"] += 1
             if s["exp"]["msg"] == "modified":
                 st["refusals"] += 1
-            if s["cmd"]["k"] in ("b", "e"):
+            if s["cmd"]["k"] in ("b", "e", "n"):
                 st["switches"] += 1
+            bk = st.setdefault("by_kind", {})
+            bk[s["cmd"]["k"]] = bk.get(s["cmd"]["k"], 0) + 1
+            if s["cmd"]["k"] in ("n", "wp") and s["exp"]["ret"] == 0:
+                st["n_wp_done"] = st.get("n_wp_done", 0) + 1
         if r["status"] == "mismatch":
             k = r["cmd"]["k"]
             prop = ATTR.get(k, own)
-            if r["field"] in ("quit", "dirty-unsound", "dirty", "msg") and k in ("e", "b", "q", "wq", "x", "xa", "se", "line"):
+            if r["field"] in ("quit", "dirty-unsound", "dirty", "msg") and k in ("e", "b", "n", "q", "wq", "x", "xa", "se", "line"):
                 prop = "C02"
-            if r["field"] in ("table", "path", "text", "row", "undo") and k in ("e", "b"):
+            if r["field"] in ("table", "path", "text", "row", "undo") and k in ("e", "b", "n"):
                 prop = "C20"
             if own == "C03" and isinstance(r.get("expected"), dict) and r["expected"].get("aw") and k in ("q", "e", "b", "wq", "x", "xa"):
                 prop = "C03"        # with autowrite on, leaving a buffer writes it: a divergence there is about the write guards
